@@ -9,6 +9,7 @@ import (
 	"math"
 	"sort"
 	"strconv"
+	"strings"
 
 	"pgregory.net/rapid"
 )
@@ -99,7 +100,7 @@ var (
 
 func (g *gen) num(label, ntype string) uint64 {
 	var v uint64
-	switch ntype {
+	switch strings.TrimPrefix(ntype, "def-") {
 	case "float32":
 		if g.rt != nil && rapid.IntRange(0, 2).Draw(g.rt, label+".sp") == 0 {
 			v = rapid.SampledFrom(f32Special).Draw(g.rt, label+".f")
@@ -125,6 +126,7 @@ func (g *gen) num(label, ntype string) uint64 {
 }
 
 func (g *gen) noteNum(ntype string, v uint64) {
+	ntype = strings.TrimPrefix(ntype, "def-")
 	switch ntype {
 	case "float32":
 		if f := math.Float32frombits(uint32(v)); f != f || v&0x80000000 != 0 {
@@ -308,6 +310,9 @@ func (g *gen) text(label string, prefix string) HexBytes {
 	n := g.length(label, NMask(prefix))
 	g.feat.TextOrList++
 	if n > 64 {
+		if rapid.IntRange(0, 3).Draw(g.rt, label+".fill") == 0 { // a long run of one byte
+			return bytes.Repeat([]byte{rapid.SampledFrom([]byte{0xff, 0x00, 0x80, ' ', '0'}).Draw(g.rt, label+".fb")}, n)
+		}
 		return expandBytes(n, rapid.Uint64().Draw(g.rt, label+".salt"))
 	}
 	t := genBytesBiased(g.rt, label, n, ' ')
@@ -452,8 +457,20 @@ func (g *gen) value(typeName string, label string, depth int) *Value {
 			x.NL = make([]uint64, n)
 			if n > 16 {
 				salt := rapid.Uint64().Draw(g.rt, l+".salt")
-				for j := range x.NL {
-					x.NL[j] = splitmix(salt+uint64(j)) & NMask(f.NType)
+				switch rapid.IntRange(0, 3).Draw(g.rt, l+".fill") {
+				case 0, 3: // every element the same boundary value (long runs of 0xff / 0x00 / 0x80 bytes on the wire)
+					cv := rapid.SampledFrom([]uint64{0xffffffffffffffff, 0xffffffffffffffff, 0, 0x8080808080808080, 0x7f7f7f7f7f7f7f7f, 0x0101010101010101}).Draw(g.rt, l+".const") & NMask(f.NType)
+					for j := range x.NL {
+						x.NL[j] = cv
+					}
+				case 1: // ascending
+					for j := range x.NL {
+						x.NL[j] = (salt + uint64(j)) & NMask(f.NType)
+					}
+				default:
+					for j := range x.NL {
+						x.NL[j] = splitmix(salt+uint64(j)) & NMask(f.NType)
+					}
 				}
 				g.noteNum(f.NType, x.NL[0])
 			} else {
@@ -595,7 +612,41 @@ func (g *gen) value(typeName string, label string, depth int) *Value {
 			}
 		}
 	}
+	g.lengthCoincidence(v, ts, label, discIdx)
 	return v
+}
+
+// lengthCoincidence: now and then one plain number of the message is set to the length (in bytes or
+// elements) of one of its texts/lists, plus a small offset - fields such as "...Len", "No..." often mirror a
+// length, and code that treats them specially is otherwise never exercised.
+func (g *gen) lengthCoincidence(v *Value, ts *TypeSchema, label string, discIdx int) {
+	var nums []int
+	var lens []int
+	for i, f := range ts.Fields {
+		switch f.Kind {
+		case "num":
+			if i != discIdx && NSize(f.NType) >= 2 {
+				nums = append(nums, i)
+			}
+		case "text":
+			lens = append(lens, len(v.F[i].T), len(v.F[i].T)+NSize(f.Prefix))
+		case "numlist":
+			lens = append(lens, len(v.F[i].NL), len(v.F[i].NL)*NSize(f.NType))
+		case "fixtextlist", "textlist":
+			lens = append(lens, len(v.F[i].TL))
+		case "objlist":
+			lens = append(lens, len(v.F[i].OL))
+		}
+	}
+	if len(nums) == 0 || len(lens) == 0 || rapid.IntRange(0, 7).Draw(g.rt, label+".lenco") != 7 {
+		return
+	}
+	ni := nums[rapid.IntRange(0, len(nums)-1).Draw(g.rt, label+".lenco.n")]
+	l := lens[rapid.IntRange(0, len(lens)-1).Draw(g.rt, label+".lenco.l")]
+	d := rapid.SampledFrom([]int{0, 0, 1, -1, 2, 4, 8, -4, 12, 16}).Draw(g.rt, label+".lenco.d")
+	if l+d >= 0 {
+		v.F[ni].N = uint64(l+d) & NMask(ts.Fields[ni].NType)
+	}
 }
 
 // GenValue draws a value of the type in the given mode.
